@@ -232,6 +232,7 @@ def judge_segmentation(sc, lines_in, impl_out, require_complete=True):
 class C02(PropBase):
     id = 'C02'
     partial_passes = 0.25
+    rx_only_passes = 0.4
     lean_modules = ['Isotp.Props.C02']
     theorems = []
     rule = ('one sender, scripted cooperative receiver (CTS with BS in {0,1,3,8,255}, STmin in {0,1ms,300us}); payload lengths on every SF/FF/CF '
